@@ -1,5 +1,6 @@
 """C16  Pseudo-Boolean expression algebra preserves integer semantics (tools/rect/pseudobool.py)."""
 import itertools
+import json
 
 from hypothesis import strategies as st
 
@@ -42,6 +43,19 @@ def build(n):
         if snap(A) != sa or snap(B) != sb:
             raise Violation("operand mutated by %s: %s" % (k, show(n)), "operand-mutated")
         return R
+    if k == "shared":
+        # one sub-expression reused the way accumulation loops do: two names start from it and grow with += ; each name means what
+        # was added to IT, and the sub-expression itself still means what it meant
+        base = build(n[1])
+        sb = snap(base)
+        left = base
+        left += build(n[2])
+        right = base
+        right += build(n[3])
+        if snap(base) != sb:
+            raise Violation("a sub-expression changed its meaning when other names that started from it were grown with +=: %s is now %s; %s" % (
+                sb, snap(base), show(n)), "operand-mutated")
+        return left + right
     if k == "mul":
         A = build(n[1])
         sa = snap(A)
@@ -95,6 +109,8 @@ def ev(n, asg):
         return ev(n[1], asg) + ev(n[2], asg)
     if k == "sub":
         return ev(n[1], asg) - ev(n[2], asg)
+    if k == "shared":
+        return 2 * ev(n[1], asg) + ev(n[2], asg) + ev(n[3], asg)
     if k == "mul":
         return ev(n[1], asg) * int(n[2])
     if k == "rmul":
@@ -118,6 +134,8 @@ def show(n):
         return "Term(%s,%s)" % (show(n[1]), n[2])
     if k in ("add", "sub"):
         return "(%s %s %s)" % (show(n[1]), "+" if k == "add" else "-", show(n[2]))
+    if k == "shared":
+        return "(let s = %s in (s += %s) + (s += %s))" % (show(n[1]), show(n[2]), show(n[3]))
     if k == "mul":
         return "(%s * %s)" % (show(n[1]), n[2])
     if k == "rmul":
@@ -263,6 +281,8 @@ def run_tree(tree):
         cls.append("sign-flip")
     if cancel:
         cls.append("cancellation")
+    if '"shared"' in json.dumps(tree):
+        cls.append("sub-expression-shared-and-grown-with-+=")
     return dict(nt=both or neg or cancel, cls=cls)
 
 
@@ -318,7 +338,10 @@ def tree_s(draw):
             if c == 1:
                 return ["expr", k()]
             return ["add", lit() if draw(st.booleans()) else term(), leaf()]
-        c = draw(_i(0, 6))
+        c = draw(_i(0, 7))
+        if c == 7:
+            return ["shared", ["add", ["expr", k()], lit() if draw(st.booleans()) else term()],
+                    lit() if draw(st.booleans()) else term(), lit() if draw(st.booleans()) else term()]
         if c <= 1:
             l = draw(_i(0, 3))
             left = lit() if l == 0 else term() if l == 1 else expr(depth - 1)
@@ -390,7 +413,8 @@ def chains(tier, shard, nshards):
 def subchecks():
     return [
         Sub("trees", run_tree, strategy=tree_s(), n_quick=60000, n_thorough=1500000, fuzz_thorough=60000,
-            required=("both-polarities", "sign-flip", "cancellation", "cmp>=", "cmp<=", "cmp>", "cmp<", "cmp=")),
+            required=("both-polarities", "sign-flip", "cancellation", "cmp>=", "cmp<=", "cmp>", "cmp<", "cmp=",
+                      "sub-expression-shared-and-grown-with-+=")),
         Sub("chains", run_tree, enum=chains, exhaustive=True,
             desc="all left-deep chains of 2 (quick) / 3 (thorough) operators over literals/terms/ints of 2 variables with "
                  "constants in -2..2, and all comparisons (5 operators) of one-operator expressions with a leaf"),
